@@ -105,11 +105,14 @@ class SimLoop(asyncio.BaseEventLoop):
     def shutdown(self):
         """Cancel all tasks, run the loop until they are finished, close."""
         try:
-            tasks = [t for t in asyncio.all_tasks(self) if not t.done()]
-            for t in tasks:
-                t.cancel()
-            if tasks:
-                self.max_iterations = self.iterations + 20000
+            # cancel what is left; code that swallows cancellation gets a few more tries, then is abandoned
+            for _attempt in range(3):
+                tasks = [t for t in asyncio.all_tasks(self) if not t.done()]
+                if not tasks:
+                    break
+                for t in tasks:
+                    t.cancel()
+                self.max_iterations = self.iterations + 500
                 try:
                     self.run_until_complete(asyncio.gather(*tasks, return_exceptions=True))
                 except (SimDeadlock, SimStepLimit, RuntimeError):
